@@ -27,6 +27,8 @@ ASSUMPTIONS = [
 ]
 IMPORTS = "From V Require Import Model.Cleanup Gen.GenCleanup Harness.Cmp Harness.H13."
 NPROC = max(2, min(8, (os.cpu_count() or 4) // 2))
+if os.environ.get("VERIF_NPROC", "").isdigit():      # shared machine: the coordinator caps the worker processes
+    NPROC = max(1, min(NPROC, int(os.environ["VERIF_NPROC"])))
 
 
 def impl():
